@@ -38,7 +38,7 @@
 (*             repeat (step bindings in order; round := round + 1) until cond # 0;  value = result  *)
 (*   binds <<bind..>>,  bind <<t>> s=name                                                          *)
 (*   int <<>> <<i>>, round, mod3 <<x>> (x as unsigned big-endian integer, mod 3), lastbyte <<x>>,    *)
-(*   sel <<i, x0, x1, ..>> (the (i+1)-th alternative), ge le sub and eq <<a, b>>, all <<bools>>      *)
+(*   sel <<i, x0, x1, ..>> (the (i+1)-th alternative), geq leq sub and eq <<a, b>>, all <<bools>>    *)
 (*   pw <<seg..>>, seg <<>> <<len>> id : SYMBOLIC passwords (model checking only, never emitted)    *)
 EXTENDS Integers, Sequences, FiniteSets
 
@@ -203,7 +203,7 @@ KeyBytes(R, bits) == IF R = 2 THEN 5 ELSE bits \div 8
 Md5x50(x, k) ==
     DoWhile(<<Bind("h", x)>>,
             <<Bind("h", Md5(Slice(Var("h", 16), 0, k)))>>,
-            T("ge", <<Round, IntC(50)>>, <<>>, ""),
+            T("geq", <<Round, IntC(50)>>, <<>>, ""),
             Var("h", 16), 16)
 
 \* Algorithm 2 (a)-(i): file encryption key from a (user) password
@@ -278,8 +278,8 @@ Hash2B(R, pw, salt, u) ==
                 Bind("K", T("sel", <<T("mod3", <<Slice(E, 0, 16)>>, <<>>, ""),            \* (c), (d)
                                      Sha256(E), Sha384(E), Sha512(E)>>, <<>>, ""))>>,
               \* (e)-(f): at least 64 rounds, then until last byte of E <= (round number) - 32
-              T("and", <<T("ge", <<Round, IntC(64)>>, <<>>, ""),
-                         T("le", <<T("lastbyte", <<E>>, <<>>, ""), T("sub", <<Round, IntC(32)>>, <<>>, "")>>, <<>>, "")>>,
+              T("and", <<T("geq", <<Round, IntC(64)>>, <<>>, ""),
+                         T("leq", <<T("lastbyte", <<E>>, <<>>, ""), T("sub", <<Round, IntC(32)>>, <<>>, "")>>, <<>>, "")>>,
                 <<>>, ""),
               Slice(K, 0, 32), 32)
 
